@@ -314,7 +314,9 @@ func runC05(p *Prog, r *Report) {
 			}
 		}
 	})
-	isAbortI := func(in ssa.Instruction) bool { return isCallToNamed(callCommon(in), ccPath, "processController", "abort") }
+	isAbortI := func(in ssa.Instruction) bool {
+		return isCallToNamed(callCommon(in), ccPath, "processController", "abort")
+	}
 	abortDefers := defers(rts, isAbortI)
 	r.Sites++
 	if startCall == nil || len(abortDefers) != 1 {
